@@ -10,6 +10,11 @@ KANI_TIMEOUT = int(os.environ.get("VERIF_KANI_TIMEOUT", "1500"))
 
 # harness -> case id whose input layout equals the order of kani::any() bytes
 HARNESS_CASE = {}
+for _f in ("gf25519", "gf255e", "gf255s"):
+    for _h, _c in (("k_add", "gf255_add"), ("k_sub", "gf255_sub"), ("k_neg", "gf255_neg"), ("k_half", "gf255_half"),
+                   ("k_normalized_encode", "gf255_encode"), ("k_decode_ct32", "gf255_decode_ct")):
+        HARNESS_CASE["gf255::%s::%s" % (_f, _h)] = "%s@%s" % (_c, _f)
+CANARY = "k_canary_must_fail"
 
 
 def setup():
@@ -61,6 +66,10 @@ def _tree_hash():
     return h.hexdigest()
 
 
+def _hn(full):
+    return full[len("kani_harnesses::"):] if full.startswith("kani_harnesses::") else full
+
+
 def _parse(out, harnesses):
     res = {}
     thread_h = {}
@@ -69,7 +78,7 @@ def _parse(out, harnesses):
     for ln in out.split('\n'):
         m = re.match(r'^Thread (\d+): Checking harness (\S+?)\.\.\.', ln)
         if m:
-            thread_h[m.group(1)] = m.group(2).split("::")[-1]
+            thread_h[m.group(1)] = _hn(m.group(2))
             cur = None
             continue
         m = re.match(r'^Thread (\d+):\s*$', ln)
@@ -79,7 +88,7 @@ def _parse(out, harnesses):
             continue
         m = re.match(r'^Checking harness (\S+?)\.\.\.', ln)
         if m:
-            cur = m.group(1).split("::")[-1]
+            cur = _hn(m.group(1))
             blocks.setdefault(cur, [])
             continue
         if ln.startswith("Manual Harness Summary"):
@@ -132,6 +141,7 @@ def run_many(harnesses, jobs=6, use_cache=True):
         else:
             todo.append(h)
     if todo:
+        todo = todo + [CANARY]
         args = ["cargo", "kani", "-Z", "stubbing", "-Z", "function-contracts", "--output-format", "terse", "-j", str(jobs)]
         for h in todo:
             args += ["--harness", h]
@@ -147,6 +157,12 @@ def run_many(harnesses, jobs=6, use_cache=True):
             for h in todo:
                 got[h] = dict(harness=h, status="undecided", reason="harness crate does not compile under kani: " +
                               "\n".join([l for l in out.split('\n') if l.startswith("error")][:5]), checks=0)
+        canary = got.pop(CANARY, None)
+        todo = [h for h in todo if h != CANARY]
+        if not canary or canary["status"] != "failed":
+            for h in todo:
+                if got[h]["status"] == "success":
+                    got[h] = dict(harness=h, status="undecided", reason="vacuity guard: the must-fail canary harness did not fail", checks=0)
         for h in todo:
             r = got[h]
             r["cmd"] = "RUSTFLAGS='--cfg pornin_crrl_verif' cargo kani -Z stubbing -Z function-contracts --harness " + h
